@@ -9,10 +9,326 @@ namespace Osmium.Pbf
 open Osmium.Wire Osmium.Osm Osmium.PbfMsg
 open Osmium.PbfSpec (Choices)
 
+/-! ### small helpers -/
+
+theorem spec_dm_single {σ : Type} (step : σ → Field → Option σ) (s : σ) (f : Field) :
+    decodeMsg step s [f] = step s f := by
+  unfold decodeMsg
+  rw [foldlM_cons']
+  cases step s f <;> rfl
+
+theorem spec_dm_opt {σ : Type} (step : σ → Field → Option σ) (s : σ) (c : Prop) [Decidable c] (f : Field) :
+    decodeMsg step s (if c then [] else [f]) = if c then some s else step s f := by
+  split
+  · rfl
+  · exact spec_dm_single step s f
+
+theorem spec_dm_mem_opt (c : Prop) [Decidable c] (x f : Field) (h : f ∈ (if c then [] else [x])) : f = x := by
+  split at h
+  · simp at h
+  · simpa using h
+
+theorem spec_dm_unpack_if (c : Bool) (a : List Nat) (h : ∀ v ∈ (if c then [] else a), v < 2 ^ 64) :
+    unpack (if c then [] else pack a) = some (if c then [] else a) := by
+  cases c
+  · simp only [Bool.false_eq_true, ↓reduceIte] at h ⊢
+    exact unpack_pack a h
+  · rfl
+
+/-! ### the outer `switch`: unknown fields, commutation -/
+
+theorem spec_dm_unknown (r : ROpts) (s : DenseAcc) (f : Field) (h : denseKnown f = false) : denseStep r s f = some s := by
+  obtain ⟨tag, wt, val, payload⟩ := f
+  unfold denseStep
+  simp only [denseKnown] at h
+  split <;> simp_all
+
+/-- the DenseInfo case of `denseStep` -/
+def spec_dm_sub (r : ROpts) (pl : Bytes) (s : DenseAcc) : Option DenseAcc :=
+  if r.readMeta then
+    match readFields pl with
+    | .error _ => none
+    | .ok fs => decodeMsg denseInfoStep { s with hasInfo := true } fs
+  else some s
+
+theorem spec_dm_step_eq (r : ROpts) (s : DenseAcc) (f : Field) : denseStep r s f =
+    match f.tag, f.wt with
+    | 1, .lengthDelimited => some { s with ids := f.payload }
+    | 5, .lengthDelimited => spec_dm_sub r f.payload s
+    | 8, .lengthDelimited => some { s with lats := f.payload }
+    | 9, .lengthDelimited => some { s with lons := f.payload }
+    | 10, .lengthDelimited => some { s with tags := f.payload }
+    | _, _ => some s := rfl
+
+theorem spec_dm_frame (upd : DenseAcc → DenseAcc)
+    (h : ∀ s f, denseInfoStep (upd s) f = (denseInfoStep s f).map upd) :
+    ∀ (fs : List Field) (s : DenseAcc), decodeMsg denseInfoStep (upd s) fs = (decodeMsg denseInfoStep s fs).map upd
+  | [], _ => rfl
+  | f :: fs, s => by
+    unfold decodeMsg
+    rw [foldlM_cons', foldlM_cons', h s f]
+    cases hh : denseInfoStep s f with
+    | none => rfl
+    | some s' =>
+      simp only [Option.map_some, Option.bind_some]
+      exact spec_dm_frame upd h fs s'
+
+theorem spec_dm_sub_frame (upd : DenseAcc → DenseAcc)
+    (h : ∀ s f, denseInfoStep (upd s) f = (denseInfoStep s f).map upd)
+    (h2 : ∀ s : DenseAcc, { upd s with hasInfo := true } = upd { s with hasInfo := true })
+    (r : ROpts) (pl : Bytes) (s : DenseAcc) : spec_dm_sub r pl (upd s) = (spec_dm_sub r pl s).map upd := by
+  unfold spec_dm_sub
+  split
+  · split
+    · rfl
+    · rw [h2, spec_dm_frame upd h]
+  · rfl
+
+theorem spec_dm_sub_ids (r : ROpts) (pl x : Bytes) (s : DenseAcc) :
+    spec_dm_sub r pl { s with ids := x } = (spec_dm_sub r pl s).map fun s => { s with ids := x } :=
+  spec_dm_sub_frame (fun s => { s with ids := x }) (fun s f => by unfold denseInfoStep; split <;> rfl) (fun _ => rfl) r pl s
+
+theorem spec_dm_sub_lats (r : ROpts) (pl x : Bytes) (s : DenseAcc) :
+    spec_dm_sub r pl { s with lats := x } = (spec_dm_sub r pl s).map fun s => { s with lats := x } :=
+  spec_dm_sub_frame (fun s => { s with lats := x }) (fun s f => by unfold denseInfoStep; split <;> rfl) (fun _ => rfl) r pl s
+
+theorem spec_dm_sub_lons (r : ROpts) (pl x : Bytes) (s : DenseAcc) :
+    spec_dm_sub r pl { s with lons := x } = (spec_dm_sub r pl s).map fun s => { s with lons := x } :=
+  spec_dm_sub_frame (fun s => { s with lons := x }) (fun s f => by unfold denseInfoStep; split <;> rfl) (fun _ => rfl) r pl s
+
+theorem spec_dm_sub_tags (r : ROpts) (pl x : Bytes) (s : DenseAcc) :
+    spec_dm_sub r pl { s with tags := x } = (spec_dm_sub r pl s).map fun s => { s with tags := x } :=
+  spec_dm_sub_frame (fun s => { s with tags := x }) (fun s f => by unfold denseInfoStep; split <;> rfl) (fun _ => rfl) r pl s
+
+theorem spec_dm_map_bind {α : Type} (o : Option α) (f : α → α) : (o.bind fun a => some (f a)) = o.map f := by
+  cases o <;> rfl
+
+theorem spec_dm_commutes (r : ROpts) : CommutesOn (denseStep r) (fun _ => True) := by
+  intro s f g _ _ hk
+  obtain ⟨t1, w1, v1, p1⟩ := f
+  obtain ⟨t2, w2, v2, p2⟩ := g
+  simp only [key, ne_eq, Prod.mk.injEq, not_and] at hk
+  simp only [spec_dm_step_eq]
+  split <;> split <;>
+    simp_all [spec_dm_sub_ids, spec_dm_sub_lats, spec_dm_sub_lons, spec_dm_sub_tags, spec_dm_map_bind]
+
+/-! ### the DenseInfo message -/
+
+theorem spec_dm_i1 (s : DenseAcc) (c : Prop) [Decidable c] (x : Bytes) :
+    decodeMsg denseInfoStep s (if c then [] else [fBytes 1 x]) = some { s with versions := if c then s.versions else x } := by
+  rw [spec_dm_opt]
+  by_cases h : c
+  · simp only [if_pos h]
+  · simp only [if_neg h]; rfl
+
+theorem spec_dm_i2 (s : DenseAcc) (c : Prop) [Decidable c] (x : Bytes) :
+    decodeMsg denseInfoStep s (if c then [] else [fBytes 2 x]) = some { s with timestamps := if c then s.timestamps else x } := by
+  rw [spec_dm_opt]
+  by_cases h : c
+  · simp only [if_pos h]
+  · simp only [if_neg h]; rfl
+
+theorem spec_dm_i3 (s : DenseAcc) (c : Prop) [Decidable c] (x : Bytes) :
+    decodeMsg denseInfoStep s (if c then [] else [fBytes 3 x]) = some { s with changesets := if c then s.changesets else x } := by
+  rw [spec_dm_opt]
+  by_cases h : c
+  · simp only [if_pos h]
+  · simp only [if_neg h]; rfl
+
+theorem spec_dm_i4 (s : DenseAcc) (c : Prop) [Decidable c] (x : Bytes) :
+    decodeMsg denseInfoStep s (if c then [] else [fBytes 4 x]) = some { s with uids := if c then s.uids else x } := by
+  rw [spec_dm_opt]
+  by_cases h : c
+  · simp only [if_pos h]
+  · simp only [if_neg h]; rfl
+
+theorem spec_dm_i5 (s : DenseAcc) (c : Prop) [Decidable c] (x : Bytes) :
+    decodeMsg denseInfoStep s (if c then [] else [fBytes 5 x]) = some { s with userSids := if c then s.userSids else x } := by
+  rw [spec_dm_opt]
+  by_cases h : c
+  · simp only [if_pos h]
+  · simp only [if_neg h]; rfl
+
+theorem spec_dm_i6 (s : DenseAcc) (c : Prop) [Decidable c] (x : Bytes) :
+    decodeMsg denseInfoStep s (if c then [] else [fBytes 6 x]) = some { s with visibles := if c then s.visibles else x } := by
+  rw [spec_dm_opt]
+  by_cases h : c
+  · simp only [if_pos h]
+  · simp only [if_neg h]; rfl
+
+/-- the DenseInfo field list, abstractly: six optional packed arrays -/
+def spec_dm_info (c1 c2 c3 c4 c5 c6 : Bool) (a1 a2 a3 a4 a5 a6 : List Nat) : List Field :=
+  (if c1 then [] else [fBytes 1 (pack a1)]) ++ (if c2 then [] else [fBytes 2 (pack a2)]) ++
+  (if c3 then [] else [fBytes 3 (pack a3)]) ++ (if c4 then [] else [fBytes 4 (pack a4)]) ++
+  (if c5 then [] else [fBytes 5 (pack a5)]) ++ (if c6 then [] else [fBytes 6 (pack a6)])
+
+theorem spec_dm_info_eval (s : DenseAcc) (c1 c2 c3 c4 c5 c6 : Bool) (a1 a2 a3 a4 a5 a6 : List Nat) :
+    decodeMsg denseInfoStep s (spec_dm_info c1 c2 c3 c4 c5 c6 a1 a2 a3 a4 a5 a6) =
+      some { s with versions := if c1 then s.versions else pack a1, timestamps := if c2 then s.timestamps else pack a2,
+                    changesets := if c3 then s.changesets else pack a3, uids := if c4 then s.uids else pack a4,
+                    userSids := if c5 then s.userSids else pack a5, visibles := if c6 then s.visibles else pack a6 } := by
+  unfold spec_dm_info
+  rw [decodeMsg_append, decodeMsg_append, decodeMsg_append, decodeMsg_append, decodeMsg_append,
+    spec_dm_i1, Option.bind_some, spec_dm_i2, Option.bind_some, spec_dm_i3, Option.bind_some, spec_dm_i4, Option.bind_some,
+    spec_dm_i5, Option.bind_some, spec_dm_i6]
+
+theorem spec_dm_info_empty (c1 c2 c3 c4 c5 c6 : Bool) (a1 a2 a3 a4 a5 a6 : List Nat)
+    (h : (spec_dm_info c1 c2 c3 c4 c5 c6 a1 a2 a3 a4 a5 a6).isEmpty = true) :
+    c1 = true ∧ c2 = true ∧ c3 = true ∧ c4 = true ∧ c5 = true ∧ c6 = true := by
+  unfold spec_dm_info at h
+  cases c1 <;> cases c2 <;> cases c3 <;> cases c4 <;> cases c5 <;> cases c6 <;> simp at h ⊢
+
+theorem spec_dm_info_shape (c1 c2 c3 c4 c5 c6 : Bool) (a1 a2 a3 a4 a5 a6 : List Nat) :
+    ∀ f ∈ spec_dm_info c1 c2 c3 c4 c5 c6 a1 a2 a3 a4 a5 a6, ∃ t pl, f = fBytes t pl ∧ 0 < t ∧ t < 17 := by
+  intro f hf
+  unfold spec_dm_info at hf
+  simp only [List.mem_append] at hf
+  rcases hf with ((((hf | hf) | hf) | hf) | hf) | hf
+  · exact ⟨1, _, spec_dm_mem_opt _ _ _ hf, by decide, by decide⟩
+  · exact ⟨2, _, spec_dm_mem_opt _ _ _ hf, by decide, by decide⟩
+  · exact ⟨3, _, spec_dm_mem_opt _ _ _ hf, by decide, by decide⟩
+  · exact ⟨4, _, spec_dm_mem_opt _ _ _ hf, by decide, by decide⟩
+  · exact ⟨5, _, spec_dm_mem_opt _ _ _ hf, by decide, by decide⟩
+  · exact ⟨6, _, spec_dm_mem_opt _ _ _ hf, by decide, by decide⟩
+
+/-! ### the DenseNodes message -/
+
+/-- the DenseNodes field list, abstractly -/
+def spec_dm_fields (ch : Choices) (ids lats lons : List Nat) (c10 : Bool) (a10 : List Nat) (info : List Field) : List Field :=
+  [fBytes 1 (pack ids)] ++
+  (if info.isEmpty then [] else [fBytes 5 (PbfSpec.msg ch PbfSpec.kDenseInfo info)]) ++
+  [fBytes 8 (pack lats), fBytes 9 (pack lons)] ++
+  (if c10 then [] else [fBytes 10 (pack a10)])
+
+theorem spec_dm_fields_shape (ch : Choices) (ids lats lons : List Nat) (c10 : Bool) (a10 : List Nat) (info : List Field) :
+    ∀ f ∈ spec_dm_fields ch ids lats lons c10 a10 info, ∃ t pl, f = fBytes t pl ∧ 0 < t ∧ t < 17 := by
+  intro f hf
+  unfold spec_dm_fields at hf
+  simp only [List.mem_append, List.mem_cons, List.not_mem_nil, or_false] at hf
+  rcases hf with ((hf | hf) | hf | hf) | hf
+  · exact ⟨1, _, hf, by decide, by decide⟩
+  · exact ⟨5, _, spec_dm_mem_opt _ _ _ hf, by decide, by decide⟩
+  · exact ⟨8, _, hf, by decide, by decide⟩
+  · exact ⟨9, _, hf, by decide, by decide⟩
+  · exact ⟨10, _, spec_dm_mem_opt _ _ _ hf, by decide, by decide⟩
+
+theorem spec_dm_cons {σ : Type} (step : σ → Field → Option σ) (s : σ) (f : Field) (fs : List Field) :
+    decodeMsg step s (f :: fs) = (step s f).bind fun s' => decodeMsg step s' fs := by
+  unfold decodeMsg
+  rw [foldlM_cons']
+
+theorem spec_dm_tail (s : DenseAcc) (lats lons : Bytes) (c10 : Bool) (x10 : Bytes) :
+    ((decodeMsg (denseStep {}) s [fBytes 8 lats, fBytes 9 lons]).bind fun s' =>
+        decodeMsg (denseStep {}) s' (if c10 then [] else [fBytes 10 x10])) =
+      some { s with lats := lats, lons := lons, tags := if c10 then s.tags else x10 } := by
+  have h8 : ∀ (s : DenseAcc) x, denseStep {} s (fBytes 8 x) = some { s with lats := x } := fun _ _ => rfl
+  have h9 : ∀ (s : DenseAcc) x, denseStep {} s (fBytes 9 x) = some { s with lons := x } := fun _ _ => rfl
+  have h10 : ∀ (s : DenseAcc) x, denseStep {} s (fBytes 10 x) = some { s with tags := x } := fun _ _ => rfl
+  rw [spec_dm_cons, h8, Option.bind_some, spec_dm_single, h9, Option.bind_some, spec_dm_opt, h10]
+  cases c10 <;> rfl
+
+theorem spec_dm_decode (ch : Choices) (hch : ChoicesOk ch) (ids lats lons : List Nat) (c10 c1 c2 c3 c4 c5 c6 : Bool)
+    (a10 a1 a2 a3 a4 a5 a6 : List Nat)
+    (hr : ¬ (spec_dm_info c1 c2 c3 c4 c5 c6 a1 a2 a3 a4 a5 a6).isEmpty = true →
+      readFields (PbfSpec.msg ch PbfSpec.kDenseInfo (spec_dm_info c1 c2 c3 c4 c5 c6 a1 a2 a3 a4 a5 a6)) =
+        .ok (PbfSpec.arrange ch PbfSpec.kDenseInfo (spec_dm_info c1 c2 c3 c4 c5 c6 a1 a2 a3 a4 a5 a6))) :
+    decodeMsg (denseStep {}) {} (spec_dm_fields ch ids lats lons c10 a10 (spec_dm_info c1 c2 c3 c4 c5 c6 a1 a2 a3 a4 a5 a6)) =
+      some { hasInfo := !(spec_dm_info c1 c2 c3 c4 c5 c6 a1 a2 a3 a4 a5 a6).isEmpty,
+             ids := pack ids, lats := pack lats, lons := pack lons, tags := if c10 then [] else pack a10,
+             versions := if c1 then [] else pack a1, timestamps := if c2 then [] else pack a2,
+             changesets := if c3 then [] else pack a3, uids := if c4 then [] else pack a4,
+             userSids := if c5 then [] else pack a5, visibles := if c6 then [] else pack a6 } := by
+  unfold spec_dm_fields
+  have h1 : denseStep {} {} (fBytes 1 (pack ids)) = some { ids := pack ids } := rfl
+  rw [decodeMsg_append, decodeMsg_append, decodeMsg_append, spec_dm_single, h1, Option.bind_some, spec_dm_opt]
+  by_cases hE : (spec_dm_info c1 c2 c3 c4 c5 c6 a1 a2 a3 a4 a5 a6).isEmpty = true
+  · obtain ⟨e1, e2, e3, e4, e5, e6⟩ := spec_dm_info_empty _ _ _ _ _ _ _ _ _ _ _ _ hE
+    rw [if_pos hE, Option.bind_some, spec_dm_tail, hE]
+    subst e1 e2 e3 e4 e5 e6
+    rfl
+  · have h5 : ∀ (s : DenseAcc) pl, denseStep {} s (fBytes 5 pl) =
+        match readFields pl with
+        | .error _ => none
+        | .ok fs => decodeMsg denseInfoStep { s with hasInfo := true } fs := fun _ _ => rfl
+    rw [if_neg hE, h5, hr hE]
+    simp only []
+    rw [decodeMsg_arrange' denseInfoStep denseInfoKnown denseInfoStep_unknown denseInfoStep_commutes ch PbfSpec.kDenseInfo _ _
+      (hch.extrasUnknown PbfSpec.kDenseInfo), spec_dm_info_eval, Option.bind_some, spec_dm_tail]
+    have hE' : (spec_dm_info c1 c2 c3 c4 c5 c6 a1 a2 a3 a4 a5 a6).isEmpty = false := by simpa using hE
+    rw [hE']
+    rfl
+
+theorem spec_dm_core (ch : Choices) (hch : ChoicesOk ch) (ids lats lons : List Nat) (c10 c1 c2 c3 c4 c5 c6 : Bool)
+    (a10 a1 a2 a3 a4 a5 a6 : List Nat)
+    (hb : CurLt64 { ids := ids, lats := lats, lons := lons, tags := if c10 then [] else a10,
+                    versions := if c1 then [] else a1, timestamps := if c2 then [] else a2,
+                    changesets := if c3 then [] else a3, uids := if c4 then [] else a4,
+                    userSids := if c5 then [] else a5, visibles := if c6 then [] else a6 })
+    (hlen : (PbfSpec.msg ch PbfSpec.kDense
+      (spec_dm_fields ch ids lats lons c10 a10 (spec_dm_info c1 c2 c3 c4 c5 c6 a1 a2 a3 a4 a5 a6))).length < 2 ^ 32)
+    (p : Params) :
+    withFields (PbfSpec.msg ch PbfSpec.kDense
+        (spec_dm_fields ch ids lats lons c10 a10 (spec_dm_info c1 c2 c3 c4 c5 c6 a1 a2 a3 a4 a5 a6))) (decodeDense p {}) =
+      denseLoop p (!(spec_dm_info c1 c2 c3 c4 c5 c6 a1 a2 a3 a4 a5 a6).isEmpty) (ids.length + 1)
+        { ids := ids, lats := lats, lons := lons, tags := if c10 then [] else a10,
+          versions := if c1 then [] else a1, timestamps := if c2 then [] else a2,
+          changesets := if c3 then [] else a3, uids := if c4 then [] else a4,
+          userSids := if c5 then [] else a5, visibles := if c6 then [] else a6 } [] := by
+  have hwf : ∀ f ∈ spec_dm_fields ch ids lats lons c10 a10 (spec_dm_info c1 c2 c3 c4 c5 c6 a1 a2 a3 a4 a5 a6), f.WF := by
+    intro f hf
+    obtain ⟨t, pl, rfl, h0, h1⟩ := spec_dm_fields_shape _ _ _ _ _ _ _ f hf
+    exact wf_bytes t pl h0 h1 (Nat.lt_of_le_of_lt (payload_le_msg ch PbfSpec.kDense _ _ hf rfl) hlen)
+  have hr : ¬ (spec_dm_info c1 c2 c3 c4 c5 c6 a1 a2 a3 a4 a5 a6).isEmpty = true →
+      readFields (PbfSpec.msg ch PbfSpec.kDenseInfo (spec_dm_info c1 c2 c3 c4 c5 c6 a1 a2 a3 a4 a5 a6)) =
+        .ok (PbfSpec.arrange ch PbfSpec.kDenseInfo (spec_dm_info c1 c2 c3 c4 c5 c6 a1 a2 a3 a4 a5 a6)) := by
+    intro hE
+    apply readFields_msg _ _ _ ?_ (hch.extrasWF _)
+    intro f hf
+    obtain ⟨t, pl, rfl, h0, h1⟩ := spec_dm_info_shape _ _ _ _ _ _ _ _ _ _ _ _ f hf
+    have hin : fBytes 5 (PbfSpec.msg ch PbfSpec.kDenseInfo (spec_dm_info c1 c2 c3 c4 c5 c6 a1 a2 a3 a4 a5 a6)) ∈
+        spec_dm_fields ch ids lats lons c10 a10 (spec_dm_info c1 c2 c3 c4 c5 c6 a1 a2 a3 a4 a5 a6) := by
+      unfold spec_dm_fields
+      simp [hE]
+    have l1 := payload_le_msg ch PbfSpec.kDenseInfo _ _ hf rfl
+    have l2 := payload_le_msg ch PbfSpec.kDense _ _ hin rfl
+    exact wf_bytes t pl h0 h1 (Nat.lt_of_le_of_lt (Nat.le_trans l1 l2) hlen)
+  unfold withFields
+  rw [readFields_msg ch PbfSpec.kDense _ hwf (hch.extrasWF _)]
+  simp only []
+  unfold decodeDense
+  rw [decodeMsg_arrange' (denseStep {}) denseKnown (spec_dm_unknown {}) (spec_dm_commutes {}) ch PbfSpec.kDense _ _
+    (hch.extrasUnknown PbfSpec.kDense), spec_dm_decode ch hch ids lats lons c10 c1 c2 c3 c4 c5 c6 a10 a1 a2 a3 a4 a5 a6 hr]
+  obtain ⟨b1, b2, b3, b4, b5, b6, b7, b8, b9, b10⟩ := hb
+  simp only [Option.bind_eq_bind, Option.bind_some, unpack_pack _ b1, unpack_pack _ b2, unpack_pack _ b3,
+    spec_dm_unpack_if _ _ b4, spec_dm_unpack_if _ _ b5, spec_dm_unpack_if _ _ b6, spec_dm_unpack_if _ _ b7,
+    spec_dm_unpack_if _ _ b8, spec_dm_unpack_if _ _ b9, spec_dm_unpack_if _ _ b10]
+
 theorem spec_decodeDense (ch : Choices) (hch : ChoicesOk ch) (table : List Bytes) (hist : Bool) (ns : List (Meta × Location))
     (hb : CurLt64 (specDenseCur ch table hist ns)) (hlen : (PbfSpec.denseMsg ch table hist ns).length < 2 ^ 32) (p : Params) :
     withFields (PbfSpec.denseMsg ch table hist ns) (decodeDense p {}) =
       denseLoop p (!(specDenseInfo ch table hist ns).isEmpty) (ns.length + 1) (specDenseCur ch table hist ns) [] := by
-  sorry
+  have hl : ((PbfSpec.delta 0 ((ns.map (fun (x : Meta × Location) => x.1)).map (fun (x : Meta) => x.id))).map zigzag64).length = ns.length := by
+    rw [List.length_map, delta_length, List.length_map, List.length_map]
+  have h := spec_dm_core ch hch
+    ((PbfSpec.delta 0 ((ns.map (fun (x : Meta × Location) => x.1)).map (fun (x : Meta) => x.id))).map zigzag64)
+    ((PbfSpec.delta 0 (ns.map fun (n : Meta × Location) => PbfSpec.coord ch.granularity ch.latOffset n.2.y)).map zigzag64)
+    ((PbfSpec.delta 0 (ns.map fun (n : Meta × Location) => PbfSpec.coord ch.granularity ch.lonOffset n.2.x)).map zigzag64)
+    (ch.omitDefaults && (ns.map (fun (x : Meta × Location) => x.1)).all (fun (x : Meta) => x.tags.isEmpty))
+    (ch.omitDefaults && (ns.map (fun (x : Meta × Location) => x.1)).all (fun (x : Meta) => x.version == 0))
+    (ch.omitDefaults && (ns.map (fun (x : Meta × Location) => x.1)).all (fun (x : Meta) => x.timestamp == 0))
+    (ch.omitDefaults && (ns.map (fun (x : Meta × Location) => x.1)).all (fun (x : Meta) => x.changeset == 0))
+    (ch.omitDefaults && (ns.map (fun (x : Meta × Location) => x.1)).all (fun (x : Meta) => x.uid == 0))
+    (ch.omitDefaults && (ns.map (fun (x : Meta × Location) => x.1)).all (fun (x : Meta) => x.user.isEmpty))
+    ((ch.omitDefaults || !hist) && (ns.map (fun (x : Meta × Location) => x.1)).all (fun (x : Meta) => x.visible))
+    ((ns.map (fun (x : Meta × Location) => x.1)).flatMap fun (m : Meta) => (m.tags.flatMap fun (t : Tag) => [PbfSpec.idx table t.key, PbfSpec.idx table t.value]) ++ [0])
+    ((ns.map (fun (x : Meta × Location) => x.1)).map fun (m : Meta) => PbfSpec.u64 (if m.version == 0 && ch.versionMinusOne then -1 else m.version))
+    ((PbfSpec.delta 0 ((ns.map (fun (x : Meta × Location) => x.1)).map fun (m : Meta) => PbfSpec.stamp ch.dateGranularity m.timestamp)).map zigzag64)
+    ((PbfSpec.delta 0 ((ns.map (fun (x : Meta × Location) => x.1)).map fun (m : Meta) => (m.changeset : Int))).map zigzag64)
+    ((PbfSpec.delta 0 ((ns.map (fun (x : Meta × Location) => x.1)).map fun (m : Meta) => (m.uid : Int))).map PbfSpec.zigzag32)
+    ((PbfSpec.delta 0 ((ns.map (fun (x : Meta × Location) => x.1)).map fun (m : Meta) => (PbfSpec.idx table m.user : Int))).map PbfSpec.zigzag32)
+    ((ns.map (fun (x : Meta × Location) => x.1)).map fun (m : Meta) => if m.visible then 1 else 0)
+    hb hlen p
+  rw [hl] at h
+  exact h
 
 end Osmium.Pbf
